@@ -16,6 +16,18 @@ for d in seeded/*/; do
     exp=$(python3 -c "import json;print(json.load(open('/verif/$d/meta.json')).get('expect_head_rc',1))" 2>/dev/null || echo 1)
     [ "$rc" = "$exp" ] && verdict=as-expected || verdict=UNEXPECTED
     echo "$id applies($(basename $patch)) rc=$rc expected=$exp $verdict ${rule:-$(echo "$out" | grep -m1 ANALYSIS | cut -c1-80)}"
+    # a seed neutralised by a later /repo fix is replayed against an archive of the commit it was made on
+    base=$(python3 -c "import json;print(json.load(open('/verif/$d/meta.json')).get('base_commit',''))" 2>/dev/null)
+    if [ -n "$base" ]; then
+      rm -rf /tmp/_seedbase; mkdir -p /tmp/_seedbase
+      git -C /repo archive $base python scripts | tar -x -C /tmp/_seedbase
+      (cd /tmp/_seedbase && patch -s -p1 < /verif/$d/patch.diff)
+      out=$(VERIF_NO_EVIDENCE=1 VERIF_REPLAY_DIR=/tmp/_replay ./check $prop --repo /tmp/_seedbase 2>&1); rc=$?
+      rule=$(echo "$out" | grep -m1 "violated" | sed 's/.*violated \([^ ]*\).*/\1/')
+      [ "$rc" = "1" ] && verdict=as-expected || verdict=UNEXPECTED
+      echo "$id on-base($base) rc=$rc expected=1 $verdict $rule"
+      rm -rf /tmp/_seedbase
+    fi
   else
     echo "$id does-not-apply-to-HEAD (made against an earlier /repo commit)"
   fi
